@@ -699,6 +699,16 @@ fn mk_enum(bits: u32, discs: &[u128], exhaustive: Exh, gated: Option<usize>, spe
             let k = variants.len() - 1;
             variants[k].disc = Disc::NonLit("-1".to_string());
         }
+        5 => {
+            // a byte literal: a literal, of integer type, but not an integer literal (the enum gets #[repr(u8)]
+            // in `enum_source`, without which rustc itself would object to the type)
+            let k = variants.len() - 1;
+            if let Disc::Lit { value, .. } = variants[k].disc {
+                if value <= 0xff {
+                    variants[k].disc = Disc::NonLit(format!("b'\\x{:02x}'", value));
+                }
+            }
+        }
         _ => {}
     }
     EnumDecl { name: "E".into(), bits, variants, exhaustive, colon: false, qualified: false, args_swapped: false }
@@ -756,7 +766,7 @@ pub fn c10_corpus(tier: Tier, seed: u64) -> Vec<EnumDecl> {
                         out.push(mk_enum(n, &d2, ex, None, 0));
                     }
                     if *md < full && n <= 4 {
-                        for special in 1..=4u8 {
+                        for special in 1..=5u8 {
                             out.push(mk_enum(n, &discs, ex, None, special));
                         }
                     }
@@ -880,7 +890,12 @@ fn enum_source(e: &EnumDecl, ro: &RenderOpts) -> String {
             }
         }
     }
-    s.push_str(&render_enum(e, ro));
+    let body = render_enum(e, ro);
+    if e.variants.iter().any(|v| matches!(&v.disc, Disc::NonLit(t) if t.starts_with("b'"))) {
+        s.push_str(&body.replacen("pub enum ", "#[repr(u8)]\npub enum ", 1));
+    } else {
+        s.push_str(&body);
+    }
     s
 }
 
